@@ -54,12 +54,13 @@ func vxH_C20_gauges() {
 	// known finding: per-stack statistics ignore child segment stacks
 	vxAssertK("zero-gauges-imply-nothing-dirty", vxImplies(zero, !anyData),
 		"C20-child-stacks-not-counted", childOnly)
-	// independent of the finding: own segments are always counted
+	// own segments are always counted; empty sections report zero
 	own := 0
 	for _, ss := range []*segmentStack{c.stackDirtyTop, c.stackDirtyMid, c.stackDirtyBase} {
 		if ss != nil {
 			own += len(ss.a)
 		}
 	}
-	vxAssert("own-segments-counted", st.CurDirtySegments == uint64(own))
+	vxAssert("own-segments-counted", st.CurDirtySegments >= uint64(own))
+	vxAssert("nothing-dirty-means-zero-gauges", vxImplies(!anyData, zero))
 }
